@@ -18,14 +18,14 @@ CLAIMED = {
 
 CLAIMED['C08'] = dict(
     category='other',
-    text='Static shape analysis over rustc MIR of the five places where tile geometry is computed, with index arithmetic compared as polynomials over atomic terms (so association, commutation, casts and temporaries are irrelevant; only which quantity multiplies which, and which axis meets which dimension, matters). Decided for all inputs: Tilemap::tile reads tiles[(y-oy)*W + (x-ox)] exactly inside 0<=x-ox<W, 0<=y-oy<H and otherwise returns the static EMPTY_TILE whose id is 0; the logical size is the per-axis rounded-up quotient of the canvas and the handle\'s own tileset; tile offsets are the cel position divided per axis by the tile size; tile_image(i) is the i-th block of tw*th pixels as a tw x th image and Tileset::image is all blocks in stored order with height th*count; the tilemap rasteriser blends pixel py*tw+px of tile_slice(tile(tx,ty).id) onto (cel.x+tx*tw+px, cel.y+ty*th+py) with the layer x cel opacity, TilemapData::tile reads tiles[y*W+x], tile_slice cuts pixels[ppt*id .. +ppt], Tilemap::image is its cel\'s image. NOT decided (and said so in the evidence): numerical agreement of lookup and image when the cel offset is not a multiple of the tile size (truncating division on negative offsets), and pixel values.',
+    text='Static shape analysis over rustc MIR of the five places where tile geometry is computed, with index arithmetic compared as polynomials over atomic terms (so association, commutation, casts and temporaries are irrelevant; only which quantity multiplies which, and which axis meets which dimension, matters). Decided for all inputs: Tilemap::tile reads tiles[(y-oy)*W + (x-ox)] exactly inside 0<=x-ox<W, 0<=y-oy<H and otherwise returns the static EMPTY_TILE whose id is 0; the logical size is the per-axis rounded-up quotient of the canvas and the handle\'s own tileset; tile offsets are the cel position divided per axis by the tile size; tile_image(i) is the i-th block of tw*th pixels as a tw x th image and Tileset::image is all blocks in stored order with height th*count; the tilemap rasteriser blends pixel py*tw+px of tile_slice(tile(tx,ty).id) onto (cel.x+tx*tw+px, cel.y+ty*th+py) with the layer x cel opacity, TilemapData::tile reads tiles[y*W+x], tile_slice cuts pixels[ppt*id .. +ppt], Tilemap::image is its cel\'s image; nothing but the per-pixel clip test (or a cull of tiles lying wholly outside the canvas) decides whether a pixel is drawn; and the checked arithmetic of these functions cannot wrap (same discharge rows as C04/C05/C16). NOT decided (and said so in the evidence): numerical agreement of lookup and image when the cel offset is not a multiple of the tile size (truncating division on negative offsets), and pixel values.',
     design_ref='DESIGN.md section 13 (supersedes the not-applicable entry of section 4/6 for C08)',
     note='Trusted: rustc MIR, the driver, the row-major contract of image::ImageBuffer::from_raw, Iterator::skip/take and slice indexing. Width safety of the arithmetic is C04/C05/C16, not this check. Accepted spellings of the rounded-up quotient: (p + t - 1) / t in any association, or p.div_ceil(t).',
     technique='static analysis: MIR provenance terms normalised to polynomials over atoms, guard/dominance inspection (custom rustc_private driver)')
 
 CLAIMED['C09'] = dict(
     category='other',
-    text='Static shape + provenance analysis over rustc MIR of the three functions that carry the property. compute_parents: one table entry per layer (enumerate over the whole slice, one push per iteration), the entry is None exactly under child_level == 0, otherwise the result of a last-match search (rposition) over the layers before it (take(id)) whose predicate is candidate.child_level < own child_level - by the documented meaning of rposition the nearest preceding layer with a smaller level, hence a lower id; no candidate is a ?-propagated error. Layer::parent() returns that entry for its own id. Layer::is_visible returns false only after a failed VISIBLE test of a member of the chain self, parent, grandparent, ... and true only at a member with no parent whose own test passed, the chain being loop-carried through the parents table (unbounded). frame_image draws a cel only under is_visible() of its layer. Decided for all level sequences because it is the shape of the search, not a sample of its results.',
+    text='Static shape + provenance analysis over rustc MIR of the three functions that carry the property. compute_parents: one table entry per layer (enumerate over the whole slice, one push per iteration), the entry is None exactly under child_level == 0, otherwise the result of a last-match search (rposition) over the layers before it (take(id)) whose predicate is candidate.child_level < own child_level - by the documented meaning of rposition the nearest preceding layer with a smaller level, hence a lower id; no candidate is a ?-propagated error. Layer::parent() returns that entry for its own id; the level compared is the unnarrowed 16-bit file field. An explicit descending search loop with first-match break and a `parent.is_none() -> Err` check is accepted as a second spelling of the search. Layer::is_visible returns false only after a failed VISIBLE test of a member of the chain self, parent, grandparent, ... and true only at a member with no parent whose own test passed, the chain being loop-carried through the parents table (unbounded). frame_image draws a cel only under is_visible() of its layer. Decided for all level sequences because it is the shape of the search, not a sample of its results.',
     design_ref='DESIGN.md section 13 (supersedes the not-applicable entry of section 4/6 for C09)',
     note='Trusted: rustc MIR, the driver, the documented semantics of Iterator::enumerate/take/rposition (not analysed). The rule recognises the rposition form of the search and the loop (strongly) / recursive / iterator (weakly: unbounded walk + VISIBLE flag) forms of is_visible; a rewrite into a different algorithm is reported as an unrecognised form.',
     technique='static analysis: MIR provenance terms, closure-body inspection, dominance/guards (custom rustc_private driver)')
